@@ -123,9 +123,13 @@ def cpmUnpackTxt (f : FImg) : Res Bytes := .ok (cpmToUtf8 (beforeFirst 0x1a (seq
 
 def textPage : Nat := 1024
 
-/-- index of the last CR (0x0d) in a list -/
-def lastCr (pg : Bytes) : Option Nat :=
-  (List.range pg.length).foldl (fun acc i => if pg[i]? = some 0x0d then some i else acc) none
+/-- index of the last CR (0x0d) in a list (`for i in (0..TEXT_PAGE).rev()` stops at the first hit
+from the top, i.e. the highest index holding a CR) -/
+def lastCrAux : Bytes → Nat → Option Nat → Option Nat
+  | [], _, acc => acc
+  | b :: r, i, acc => lastCrAux r (i+1) (if b = 0x0d then some i else acc)
+
+def lastCr (pg : Bytes) : Option Nat := lastCrAux pg 0 none
 
 /-- `paginate(ans, page, count_on_page)`: `ok (ans', page')`, `err` (no CR on the page),
 `panic` (`ans[offset+i]` out of range; the first index tried is `offset+1023`) -/
